@@ -25,8 +25,9 @@ Proved for ALL inputs:
   `after k ty`; complete iff `passes ty ≤ k`; the loop succeeds iff `passes ty ≤ budget`);
 * `C08_from_type`: `Agree (fromType c o ty) (Spec.fromTypeSpec o ty)` for every type and every option record;
   `C08_from_type_budget`, `C08_from_type_not_walkable`, `C08_from_type_recursive` (depth limit);
-* `C08_agree`: `fromSamples c o (covering ty) = fromType c o ty` for every walkable type with unique field names whose
-  passes fit the budget (enums included).
+* `C08_agree`: `fromSamples c o (covering ty) = fromType c o ty` for every walkable type with unique field names
+  (`uniqueNames`), at most 2^20 variants per enum (`smallEnums`: the allocation bound of the model of `ensure_variant`)
+  and whose passes fit the budget (enums included).
 * `C08_agree_all`: `fromSamples c o xs = fromType c o ty` for EVERY covering collection `xs` (`Covers o ty xs`,
   SaModel/Lemmas/C08Covers.lean: values of the type in any order, with any repetitions and any extra values, that
   together exercise every variant, a `Some` of every `Option`, an element of every sequence / map) — same hypotheses as
